@@ -26,6 +26,12 @@ func vhOpArg(sel int) Operator {
 		return vhSliceOp{"=~", "approx", "spare"}
 	case 7:
 		return &vhUserOp{"->", "arrow"}
+	case 8: // typed nil pointers: no operator, whatever the interface header says
+		var p *vhUserOp
+		return p
+	case 9:
+		var p *ComparisonOperator
+		return p
 	}
 	return vhUserOp{"~=", ""}
 }
@@ -39,6 +45,16 @@ func (o vhSliceOp) Context() string { return o[1] }
 func vhOpAcceptable(op Operator) bool {
 	if op == nil {
 		return false
+	}
+	switch p := op.(type) {
+	case *vhUserOp:
+		if p == nil {
+			return false
+		}
+	case *ComparisonOperator:
+		if p == nil {
+			return false
+		}
 	}
 	return len(op.Context()) > 0 && len(op.String()) > 0
 }
@@ -231,7 +247,7 @@ func VH_C06_Step(p []int) {
 			c.SetKeyword(17) // neither text nor stringer: ignored
 		}
 	case 1:
-		op := vhOpArg(nondetChoice(8))
+		op := vhOpArg(nondetChoice(10))
 		c.SetOperator(op)
 		if vhOpAcceptable(op) {
 			m.op = op
@@ -257,7 +273,7 @@ func VH_C06_Hist(p []int) {
 		if nondetChoice(2) == 1 {
 			kw = "kw"
 		}
-		op := vhOpArg(nondetChoice(8))
+		op := vhOpArg(nondetChoice(10))
 		ex := vhExArg(nondetChoice(12))
 		c = Cond(kw, op, ex)
 		m.kw = kw
@@ -289,7 +305,7 @@ func VH_C06_Hist(p []int) {
 				m.kw = ""
 			}
 		case 1:
-			op := vhOpArg(nondetChoice(8))
+			op := vhOpArg(nondetChoice(10))
 			c.SetOperator(op)
 			if vhOpAcceptable(op) {
 				m.op = op
